@@ -635,10 +635,9 @@ fn selftest(cx: &mut Cx) {
     let k = if cx.thorough { 3000 } else { 1500 };
     let mut results = serde_json::Map::new();
     type Plant = (&'static str, fn(&mut Rng, usize, usize) -> Stress, fn(&str) -> String, fn(&Stress, &[Vec<String>], &str) -> Result<Value, String>);
-    let plants: [Plant; 3] = [
+    let plants: [Plant; 2] = [
         ("split-push (size + resize)", gen_big_list, plant_split_push, check_big_list),
         ("split-fill (two half fills)", gen_torn_fill, plant_split_fill, check_torn_fill),
-        ("split-reverse (snapshot + clear + extend)", gen_reverse, plant_split_reverse, check_reverse),
     ];
     for (name, genf, plant, check) in plants {
         let mut detected = 0;
@@ -682,8 +681,8 @@ fn run_stress_phases(cx: &mut Cx) {
     selftest(cx);
     let t_self = t0.elapsed().as_secs_f64();
     // small histories, exact linearizability check
-    let n_small = if thorough { 1500 } else { 90 };
-    let rounds = if thorough { 1500 } else { 300 };
+    let n_small = if thorough { 3000 } else { 300 };
+    let rounds = if thorough { 1500 } else { 400 };
     // wall-clock budgets (spin barriers are slow on an oversubscribed machine): specs are taken in
     // seed order, so a shorter run explores a prefix of a longer one
     let (budget_small, budget_big) = if thorough { (330.0, 420.0) } else { (30.0, 40.0) };
@@ -705,7 +704,7 @@ fn run_stress_phases(cx: &mut Cx) {
     }
     let t_small = t0.elapsed().as_secs_f64();
     // large histories, counting invariants
-    let (k, reps) = if thorough { (3000, 12) } else { (1200, 2) };
+    let (k, reps) = if thorough { (3000, 30) } else { (2000, 4) };
     let mut big_done = 0;
     for rep_i in 0..reps {
         if rep_i >= 1 && t0.elapsed().as_secs_f64() - t_small > budget_big {
